@@ -94,3 +94,18 @@ def run(ctx):
         selftest(ctx, events)
     ctx.assumptions.append("StateRootInHeader changes the block format, so it varies per world (all replicas of a world share it), not between replicas fed identical bytes")
     ctx.assumptions.append("digest covers the CURRENT height only (what every retention mode keeps); historic reads are C03's subject")
+    # extension: token transfer log (spec/transferlog, harness/c01transfers)
+    ext = _load_ext("c01_transfers")
+    if ext:
+        ext.run_ext(ctx)
+
+
+def _load_ext(name):
+    import importlib.util
+    p = os.path.join(os.path.dirname(os.path.abspath(__file__)), name + ".py")
+    if not os.path.exists(p):
+        return None
+    sp = importlib.util.spec_from_file_location("check_" + name, p)
+    m = importlib.util.module_from_spec(sp)
+    sp.loader.exec_module(m)
+    return m
